@@ -140,10 +140,10 @@ TYPE_SPECS = {
     'StringConstant': lambda: yaqltypes.StringConstant(), 'NumericConstant': lambda: yaqltypes.NumericConstant(),
     'BooleanConstant': lambda: yaqltypes.BooleanConstant(), 'Keyword': lambda: yaqltypes.Keyword(),
     'Context': lambda: yaqltypes.Context(), 'Engine': lambda: yaqltypes.Engine(),
-    'Receiver': lambda: yaqltypes.Receiver(),
+    'Receiver': lambda: yaqltypes.Receiver(), 'YaqlInterface': lambda: yaqltypes.YaqlInterface(),
     'Iterable': lambda: yaqltypes.Iterable(), 'Sequence': lambda: yaqltypes.Sequence(),
 }
-HIDDEN_SPECS = ('Context', 'Engine', 'Receiver')
+HIDDEN_SPECS = ('Context', 'Engine', 'Receiver', 'YaqlInterface')
 LAZY_SPECS = ('Lambda', 'LambdaM', 'MappingRule', 'YaqlExpression', 'YaqlExpressionF')
 
 
@@ -785,7 +785,8 @@ class History:
 
     def fd(self, fid):
         if fid not in self.fds:
-            self._new_def(fid, fid, build_fd(self.defs[fid]), expected_fd(self.defs[fid]))
+            o = self.defs[fid]      # a PREPARED definition: the convention only when it was asked for
+            self._new_def(fid, fid, build_fd(o), expected_fd(o, convention=_py(o).get('via') == 'fdconv'))
         return self.fds[fid]
 
     def _new_def(self, did, fid, fd, exp):
@@ -842,7 +843,7 @@ class History:
             o = self.defs[fid]
             if fid not in self.callables:
                 self.callables[fid] = build_callable(o)
-            exp = expected_fd(o, convention=True)
+            exp = expected_fd(o, convention=self.rec.write_conv(i))
             try:
                 fd = register_callable(self.ctxs[i], self.callables[fid], name_arg(o), exp.name, bool(x))
             except exceptions.InvalidMethodException:
